@@ -140,7 +140,7 @@ PROPS = {
             {"pkg": "glow", "tags": "verif", "harness": "^verifH_C15_"},
             {"pkg": "server", "tags": "verif,test", "harness": "^verifH_C15_", "unwind": 8},
         ],
-        "bounds": {"weekly statistics record": "device count 0, input length 0..80 (valid: 72)"},
+        "bounds": {"weekly statistics record": "device count 0, every input length 0..80 (valid: 72) as its own case, arbitrary content"},
         "outside": [],
     },
     "C20": {
